@@ -110,6 +110,7 @@ class SimConn:
         self._last_sched = 0.0          # latest scheduled delivery time (TCP ordering)
         self.deliveries = []            # [(time, start, end)] actual data_received calls
         self.state = {}                 # scratch for the server (session key, counters ...)
+        self.hostile_until = 0.0        # latest scheduled hostile event (close / non-honest bytes)
         self._lost_called = False
 
     # --- client side events ------------------------------------------------------------------
@@ -194,6 +195,7 @@ class SimConn:
         loop = self.net.loop
         t = max(quantize(loop.time() + lat), self._last_sched + TICK)
         self._last_sched = t
+        self.hostile_until = max(self.hostile_until, t)
         loop.at(t, self._deliver_close, rst)
 
     def _deliver_close(self, rst):
